@@ -1,13 +1,14 @@
 import SJ.Model.Swar
-import Std.Tactic.BVDecide
-/-! Helper lemmas for `c05_swar_first_escape`: the per-chunk facts (by `bv_decide`, as in
-    `design-spikes/Swar.lean`), lifted over `chunks_exact`, the slow tail and the `memchr2` branch. -/
+import SJ.Proofs.SwarWord
+/-! Helper lemmas for `c05_swar_first_escape`: the per-chunk facts (from `Proofs.SwarWord`: byte-wise
+    ripple of the three subtractions, 256-case byte lemmas — kernel-checked, no `bv_decide`), lifted
+    over `chunks_exact`, the slow tail and the `memchr2` branch. -/
 namespace SJ.Proofs.Swar
 open SJ SJ.Model.Swar
 open SJ.Spec.Str (stopsScan runLength)
 
 /-- the extracted constants the chunk lemmas are proved for (a changed constant breaks this `rfl`
-    or, if it survives, the `bv_decide` proofs below) -/
+    or `SwarWord.masked_eq_mW`; the byte constants are checked in `SwarWord.byteOk_all`) -/
 theorem consts : Gen.swarChunkBits = 64 ∧ Gen.swarStep = 8 ∧ Gen.swarTzDiv = 8 ∧ Gen.slowStep = 1 ∧
     Gen.slowInclCtrl = true := ⟨rfl, rfl, rfl, rfl, rfl⟩
 
@@ -27,22 +28,6 @@ abbrev e (b : UInt8) : Bool := stopsScan b true
 def firstIdx (b0 b1 b2 b3 b4 b5 b6 b7 : UInt8) : BitVec 64 :=
   if e b0 then 0#64 else if e b1 then 1#64 else if e b2 then 2#64 else if e b3 then 3#64
   else if e b4 then 4#64 else if e b5 then 5#64 else if e b6 then 6#64 else if e b7 then 7#64 else 8#64
-
-/-- per-chunk fact 1: the mask is zero iff no byte of the chunk is an escape byte -/
-theorem chunk_zero (b0 b1 b2 b3 b4 b5 b6 b7 : UInt8) :
-    masked (fromLeBytes [b0, b1, b2, b3, b4, b5, b6, b7]) = 0#64 ↔ firstIdx b0 b1 b2 b3 b4 b5 b6 b7 = 8#64 := by
-  rw [masked_lit]
-  simp only [fromLeBytes, firstIdx, e, stopsScan]
-  bv_decide
-
-/-- per-chunk fact 2: if the mask is non-zero, `trailing_zeros / 8` is the index of the first
-    escape byte (borrow propagation can only set spurious bits *above* the first true one) -/
-theorem chunk_ctz (b0 b1 b2 b3 b4 b5 b6 b7 : UInt8)
-    (h : masked (fromLeBytes [b0, b1, b2, b3, b4, b5, b6, b7]) ≠ 0#64) :
-    (masked (fromLeBytes [b0, b1, b2, b3, b4, b5, b6, b7])).ctz / 8#64 = firstIdx b0 b1 b2 b3 b4 b5 b6 b7 := by
-  rw [masked_lit] at h ⊢
-  simp only [fromLeBytes, firstIdx, e, stopsScan] at h ⊢
-  bv_decide
 
 /-! ### list-level facts about `runLength` -/
 
@@ -129,6 +114,23 @@ theorem firstIdx_toNat (b0 b1 b2 b3 b4 b5 b6 b7 : UInt8) :
     (firstIdx b0 b1 b2 b3 b4 b5 b6 b7).toNat = runLength [b0, b1, b2, b3, b4, b5, b6, b7] true := by
   simp only [runLength_cons, runLength_nil, firstIdx, e]
   exact firstIdx_aux _ _ _ _ _ _ _ _
+
+/-- per-chunk fact 1: the mask is zero iff no byte of the chunk is an escape byte -/
+theorem chunk_zero (b0 b1 b2 b3 b4 b5 b6 b7 : UInt8) :
+    masked (fromLeBytes [b0, b1, b2, b3, b4, b5, b6, b7]) = 0#64 ↔ firstIdx b0 b1 b2 b3 b4 b5 b6 b7 = 8#64 := by
+  rw [(SwarWord.chunk_run [b0, b1, b2, b3, b4, b5, b6, b7] rfl).1, ← firstIdx_toNat]
+  constructor
+  · intro h; exact BitVec.eq_of_toNat_eq (by simpa using h)
+  · intro h; rw [h]; rfl
+
+/-- per-chunk fact 2: if the mask is non-zero, `trailing_zeros / 8` is the index of the first
+    escape byte (borrow propagation can only set spurious bits *above* the first true one) -/
+theorem chunk_ctz (b0 b1 b2 b3 b4 b5 b6 b7 : UInt8)
+    (h : masked (fromLeBytes [b0, b1, b2, b3, b4, b5, b6, b7]) ≠ 0#64) :
+    (masked (fromLeBytes [b0, b1, b2, b3, b4, b5, b6, b7])).ctz / 8#64 = firstIdx b0 b1 b2 b3 b4 b5 b6 b7 := by
+  apply BitVec.eq_of_toNat_eq
+  rw [BitVec.toNat_udiv, firstIdx_toNat]
+  exact (SwarWord.chunk_run [b0, b1, b2, b3, b4, b5, b6, b7] rfl).2 h
 
 /-- what one loop iteration learns from a chunk of 8 bytes -/
 theorem chunk_fact (chunk : Bytes) (h : chunk.length = 8) :
